@@ -1,9 +1,9 @@
 """C02 — tree.Map/Set iterators stay correct while the tree is modified between Next calls."""
 import vlib
 from scale_common import ScaleSpec
-from tree_common import TreeSpec
+from tree_common import TreeSpec, TreeBigIterSpec
 
-SPECS = {"scale": (ScaleSpec(['tree-iter-gen']), "harness", "runner"), "tree": (TreeSpec("c02"), "harness", "runner")}
+SPECS = {"tree-big": (TreeBigIterSpec(), "harness", "runner"), "scale": (ScaleSpec(['tree-iter-gen']), "harness", "runner"), "tree": (TreeSpec("c02"), "harness", "runner")}
 
 PROP_FILES = ["C02"]
 
@@ -15,6 +15,7 @@ def run(ctx):
         ctx.violation("harness-build", "the harness does not build against the current tree: " + out[-1500:], {"build_output": out[-4000:]}, failing_input=False)
         return ctx.finish()
     vlib.seq_differential(ctx, TreeSpec("c02"), exe, proofs_ok, tag="tree")
+    vlib.seq_differential(ctx, TreeBigIterSpec(), exe, proofs_ok, tag="tree-big")
     okS, outS, exeS = vlib.build_runner()
     if okS:
         vlib.seq_differential(ctx, ScaleSpec(['tree-iter-gen']), exeS, proofs_ok, tag="scale")
